@@ -121,7 +121,14 @@ def install(eng):
     np = eng.np
     NpModule = type(np)
 
-    def atleast_1d(self, a):
+    base_atleast_1d = NpModule.atleast_1d
+
+    def atleast_1d(self, a, *more):
+        # arrays (and the verifier-side array stand-ins of this model) are returned as they are; scalars and label collections
+        # become 1-D label arrays through the numpy model (so that a later cast wraps as numpy's does)
+        from .values import SymInt, SymSet
+        if more or (isinstance(a, (int, SymInt, list, tuple, SymSet)) and not isinstance(a, bool)):
+            return base_atleast_1d(self, a, *more)
         return a
     NpModule.atleast_1d = atleast_1d
     old_zeros = NpModule.zeros
